@@ -180,7 +180,7 @@ class TagClient(dataflow.Client):
             key = self.recv_key(fn.call_receiver(s))
             if key:
                 return ("recv", key)
-        if n["k"] in ("MemberExpr",) and self.spec.type_field and n.get("n") == self.spec.type_field:
+        if n["k"] in ("MemberExpr", "CXXDependentScopeMemberExpr") and self.spec.type_field and n.get("n") == self.spec.type_field and not n.get("qual"):
             key = self.recv_key(n["ch"][0]) if n.get("ch") else "this"
             if key:
                 return ("recv", key)
